@@ -144,6 +144,40 @@ def rule_provenance(ctx, rid):
                                 guard = True
                         if not guard:
                             bad1 = 'a neighbour index is accepted without the `< y.shape[0]` range guard'
+    if n1 == 0 and not bad1:
+        # vectorised form:  final = np.full(n, -1); final[good] = W[good]  with  W = inds[arange(n), winner]  and
+        # `W < y.shape[0]` among the conjuncts of `good`
+        v = exits[0].value
+        fin = None
+        if v[0] == 'tuple' and len(v[1]) == 2 and v[1][0][0] == 'sub' and v[1][0][1][0] == 'call' \
+                and v[1][0][1][1] == 'numpy.where' and v[1][0][1][2][0][0] == 'cmp':
+            fin = v[1][0][1][2][0][2]
+        if fin is not None and fin[0] == 'setitem' and fin[1][0] == 'call' and fin[1][1] == 'numpy.full' \
+                and len(fin[1][2]) >= 2 and fin[1][2][1] == C(-1):
+            mask, val = fin[2], fin[3]
+            n1 = 1
+            W = val[1] if val[0] == 'sub' and val[2] == mask else None
+            conj = []
+
+            def flat(m):
+                if m[0] == 'bin' and m[1] == '&':
+                    flat(m[2])
+                    flat(m[3])
+                elif m[0] == 'call' and m[1] == 'numpy.logical_and':
+                    for x in m[2]:
+                        flat(x)
+                else:
+                    conj.append(m)
+            flat(mask)
+            if W is None:
+                bad1 = 'final[good] <- %s (not the winners under the same mask)' % show(val)[:60]
+            elif not (W[0] == 'sub' and W[2][0] == 'tuple' and len(W[2][1]) == 2 and W[2][1][0][0] == 'call'
+                      and W[2][1][0][1] == 'numpy.arange'
+                      and any(t[0] == 'meth' and t[1] == 'query' for t in subterms(W[1]))):
+                bad1 = 'the assigned values are not inds[i, winner[i]]: %s' % show(W)[:60]
+            elif not any(cj[0] == 'cmp' and cj[1] == '<' and cj[2] == W and show(cj[3]).endswith('.shape[0]')
+                         for cj in conj):
+                bad1 = 'a neighbour index is accepted without the `< y.shape[0]` range guard'
     if bad1:
         ctx.violation(rid, fi, c1, bad1)
     elif n1 == 0:
@@ -215,6 +249,8 @@ def rule_one_claimant(ctx, rid):
 
 
 def _claimants(idx, col):
+    from .common import unzip_comp, flatten_comp
+    idx = unzip_comp(flatten_comp(idx))
     if idx[0] == 'comp' and len(idx[3]) == 1 and not idx[3][0][2]:
         elt = idx[2]
         if elt[0] == 'sub':
